@@ -232,17 +232,17 @@ def _rl(u, what):
         rowlocal(u, "reward", mk_in, lambda u, ins: u.run(F, "PCTSPEnv._get_reward", ins["td"], ins["actions"], selfobj=env), requires=req)
 
 
-@unit("pctsp.rowlocal.step", file=F, func="PCTSPEnv._step", props=("C04",))
+@unit("pctsp.rowlocal.step", file=F, func="PCTSPEnv._step", props=("C04", "C14"))
 def _(u):
     _rl(u, "step")
 
 
-@unit("pctsp.rowlocal.mask", file=F, func="PCTSPEnv.get_action_mask", props=("C04",))
+@unit("pctsp.rowlocal.mask", file=F, func="PCTSPEnv.get_action_mask", props=("C04", "C14"))
 def _(u):
     _rl(u, "mask")
 
 
-@unit("pctsp.rowlocal.reward", file=F, func="PCTSPEnv._get_reward", props=("C04",))
+@unit("pctsp.rowlocal.reward", file=F, func="PCTSPEnv._get_reward", props=("C04", "C14"))
 def _(u):
     _rl(u, "reward")
 
